@@ -151,10 +151,13 @@ class IsotropicSolidAngle(BaseProposal):
         except AttributeError:
             phi, cdf = self.random_generator.random_sample(size=2)
         phi *= 2 * numpy.pi
-        # feed the randomly generated point into the cdf inverse
-        theta = numpy.log(numpy.exp(self.kappa)
-                          - self.kappa * cdf / (2 * numpy.pi * self.norm))
-        theta = numpy.arccos(theta / self.kappa)
+        # feed the randomly generated point into the cdf inverse; this is
+        # log(exp(kappa) - cdf*(exp(kappa) - exp(-kappa)))/kappa written such
+        # that it does not overflow or cancel for large kappa, and clipped to
+        # guard against round off for cdf close to 0 or 1
+        costheta = 1. + numpy.log1p(cdf * numpy.expm1(-2. * self.kappa)) \
+            / self.kappa
+        theta = numpy.arccos(numpy.clip(costheta, -1., 1.))
         return phi, theta
 
     def _spherical2cartesian(self, phi, theta, convert=False):
